@@ -16,9 +16,12 @@
 
 from __future__ import annotations
 
+from functools import reduce
+from operator import add
 from typing import TYPE_CHECKING
 
 from gemseo.core.chains.parallel_chain import MDOParallelChain
+from gemseo.core.derivatives.jacobian_operator import JacobianOperator
 
 if TYPE_CHECKING:
     from collections.abc import Iterable
@@ -90,13 +93,29 @@ class MDOAdditiveChain(MDOParallelChain):
 
         # Sum the Jacobians of the required outputs across disciplines
         for output_name in self._outputs_to_sum:
-            self.jac[output_name] = {}
+            if output_name not in output_names:
+                continue
+
+            jacobian = self.jac[output_name] = {}
             for input_name in input_names:
                 disciplinary_jacobians = [
                     discipline.jac[output_name][input_name]
                     for discipline in self.disciplines
-                    if input_name in discipline.jac[output_name]
+                    if input_name in discipline.jac.get(output_name, ())
                 ]
+                if disciplinary_jacobians:
+                    # A Jacobian operator can be added to an array,
+                    # but not the other way round.
+                    disciplinary_jacobians.sort(
+                        key=lambda jac: not isinstance(jac, JacobianOperator)
+                    )
+                    jacobian[input_name] = reduce(add, disciplinary_jacobians)
 
-                assert disciplinary_jacobians
-                self.jac[output_name][input_name] = sum(disciplinary_jacobians)
+        # Fill the blocks of the summed outputs
+        # that do not depend on an input with zeros.
+        self._init_jacobian(
+            input_names,
+            output_names,
+            fill_missing_keys=True,
+            init_type=self.InitJacobianType.SPARSE,
+        )
